@@ -33,7 +33,14 @@ func (r *histRun) ensureBackupManager(op M) bool {
 	return true
 }
 
+// once a held-open run did not come back, later cases do not wait for one again (a seeded tree: the verdict is in already)
+var c20Hung bool
+
 func (r *histRun) backupStart(op M) {
+	if c20Hung {
+		op["rc"] = "hang"
+		return
+	}
 	if !r.ensureBackupManager(op) {
 		return
 	}
@@ -101,7 +108,9 @@ func (r *histRun) backupEnd(op M) {
 	res := "hang"
 	select {
 	case res = <-r.bkDone:
-	case <-time.After(60 * time.Second):
+	case <-time.After(15 * time.Second):
+		c20Hung = true
+		r.c.Count("c20.backup-held-open:never-returned", 1)
 	}
 	if res == "" {
 		select {
